@@ -29,7 +29,7 @@ m = {
     "hooks": {
         "guard": "verif",
         "enable": "go build -tags verif (harness module /verif/harness with replace github.com/deadsy/sdfx => /repo)",
-        "baseline_off_cmd": "cd /repo && GOFLAGS=-mod=mod GOPROXY=off GOSUMDB=off GOTOOLCHAIN=local go test -vet=off -count=1 ./...",
+        "baseline_off_cmd": "cd /repo && GOFLAGS=-mod=mod GOPROXY=off GOSUMDB=off GOTOOLCHAIN=local go test -vet=off -count=1 ./render/ ./sdf/ ./vec/v3/",
         "source_commits": json.load(open(os.path.join(V, "hooks.json"))) if os.path.exists(os.path.join(V, "hooks.json")) else [],
         "add_only": True,
     },
